@@ -32,7 +32,7 @@ pub fn spec(id: &str) -> Option<CheckSpec> {
             level: "fault_enumeration",
             owns: &["content-integrity", "crash-read", "crash-atomicity", "fault-surface", "read-exact", "missing-content", "exists", "lookup"],
             runs: (60, 1500),
-            rule: "a run = one write shape (entry point x size around the mmap threshold x chunking x declared size x flavour x cold/warm cache x address already present); inside it EVERY kill point (before each filesystem system call of the write) and, for each data-carrying call, torn lengths {0,1,len/2,len-1} (quick) / more (thorough) then kill are enumerated; evaluations counts simulated executions. After every executed system call every file named by it under content-v2 is re-hashed (I1); after the kill the whole content area is scanned and fresh readers of all flavours must see 'absent' or the exact bytes. Non-trivial = the kill landed after the temp file existed; distinct by hash of the normalised system-call trace",
+            rule: "a run = one write shape (entry point x size around the mmap threshold x chunking x declared size x flavour x cold/warm cache x address already present); inside it EVERY kill point (before each filesystem system call of the write) and, for each data-carrying call, torn lengths {0,1,len/2,len-1} (quick) / more (thorough) then kill are enumerated; evaluations counts simulated executions. After every executed system call every file named by it under content-v2 is re-hashed (I1); after the kill the whole content area is scanned and fresh readers of all flavours must see 'absent' or the exact bytes. Non-trivial = the kill landed after the temp file existed; distinct by hash of the normalised system-call trace. A third of the runs first make the publishing rename fail (EXDEV/EACCES/EIO/ENOSPC) and enumerate the kills of the error path; async victims run under a canonical-first, reverse or seeded-random schedule of their own pool threads (fixed per enumeration); some async victims drop one write future after a single poll and go on with other data",
             assumptions: A_SYS,
         },
         "C04" => CheckSpec {
@@ -41,7 +41,7 @@ pub fn spec(id: &str) -> Option<CheckSpec> {
             level: "fault_enumeration",
             owns: &["crash-atomicity", "lookup", "read-exact", "listing", "missing-content", "content-integrity", "removal", "write-ok", "commit-accept", "format", "fault-surface"],
             runs: (30, 600),
-            rule: "a run = prior state of key K (absent / present / removed) + bystander key + victim (keyed write one-shot or streamed with metadata, or removal) x flavour; inside it every kill point and EVERY torn prefix length of the index append are enumerated; after the kill the simulator's decoder must find K exactly old or exactly new, all five reader flavours must agree, the bystander is unchanged, a visible new entry has complete content, and a continuation history (re-write, remove, write bystander) succeeds and is visible. Non-trivial = kill landed inside the victim call; distinct by trace hash",
+            rule: "a run = prior state of key K (absent / present / removed) + bystander key + victim (keyed write one-shot or streamed with metadata, or removal) x flavour; inside it every kill point and EVERY torn prefix length of the index append are enumerated; after the kill the simulator's decoder must find K exactly old or exactly new, all five reader flavours must agree, the bystander is unchanged, a visible new entry has complete content, and a continuation history (re-write, remove, write bystander) succeeds and is visible. Non-trivial = kill landed inside the victim call; distinct by trace hash. The victim's bucket is sometimes several KiB to tens of KiB long already; async victims run under a canonical-first, reverse or seeded-random schedule of their own pool threads, so that orders in which the index append overtakes the content rename are crash-tested too",
             assumptions: A_SYS,
         },
         "C13" => CheckSpec {
@@ -50,7 +50,7 @@ pub fn spec(id: &str) -> Option<CheckSpec> {
             level: "fault_enumeration",
             owns: &["fault-surface", "content-integrity", "lookup", "read-exact", "listing", "missing-content", "write-ok", "commit-accept", "retry", "crash-atomicity", "checked-read", "extract", "extract-leftover", "removal", "exists", "format"],
             runs: (140, 2500),
-            rule: "a run = one victim call (write*, streamed write+commit, read*, Reader+check, copy*, hard_link*, remove*, remove_hash*, list, metadata*, link_to*) x flavour x cache shape (cold, warm, bucket > 8 KiB, content > one read buffer); inside it EVERY filesystem system call of the victim x each applicable errno (and short-write-then-ENOSPC for data writes) is injected one at a time; the call must return Err or a truthful Ok, never panic/hang; afterwards all other entries read back exactly, content area passes I1, the victim key is exactly old or new, and the same call repeated without faults succeeds. Non-trivial = the errno was actually delivered; distinct by trace hash",
+            rule: "a run = one victim call (write*, streamed write+commit, read*, Reader+check, copy*, hard_link*, remove*, remove_hash*, list, metadata*, link_to*) x flavour x cache shape (cold, warm, bucket > 8 KiB, content > one read buffer); inside it EVERY filesystem system call of the victim x each applicable errno (and short-write-then-ENOSPC for data writes) is injected one at a time; the call must return Err or a truthful Ok, never panic/hang; afterwards all other entries read back exactly, content area passes I1, the victim key is exactly old or new, and the same call repeated without faults succeeds. Non-trivial = the errno was actually delivered; distinct by trace hash. Also: faults that persist (every later call of that kind on that file fails), pure short writes, EINTR, victims whose commit is going to be rejected, fault pairs (thorough); in a fifth of the runs the SAME process makes the failed call again (state the failed attempt left inside the process is judged strictly); async victims run under first / last / seeded-random schedules of their own threads",
             assumptions: A_SYS,
         },
         "C15" => CheckSpec {
@@ -59,7 +59,7 @@ pub fn spec(id: &str) -> Option<CheckSpec> {
             level: "exploration",
             owns: &["confinement", "readonly-mutates", "key-opaque", "lookup", "read-exact", "listing"],
             runs: (1500, 40000),
-            rule: "a run = a seeded program over the whole operation table with hostile/confusable keys, executed by one traced client whose TMPDIR, HOME and cwd point at sentinel directories; every mutating system call (open with write/create flags, mkdir, rename, unlink, link, symlink, truncate, fallocate, write-family, writable shared mmap, chmod/chown/utimens/xattr, copy_file_range, FICLONE) must target the cache directory or the declared destination; read-only API calls issue no mutating call; index paths touched for key k are exactly index-v5/sha1(k); sentinel trees are byte-identical afterwards. Half the runs inject one errno to reach error paths. Non-trivial = >= 1 mutating system call observed; distinct by trace hash",
+            rule: "a run = a seeded program over the whole operation table with hostile/confusable keys, executed by one traced client whose TMPDIR, HOME and cwd point at sentinel directories; every mutating system call (open with write/create flags, mkdir, rename, unlink, link, symlink, truncate, fallocate, write-family, writable shared mmap, chmod/chown/utimens/xattr, copy_file_range, FICLONE) must target the cache directory or the declared destination; read-only API calls issue no mutating call; index paths touched for key k are exactly index-v5/sha1(k); sentinel trees are byte-identical afterwards. Half the runs inject one errno to reach error paths. Non-trivial = >= 1 mutating system call observed; distinct by trace hash. The cache path is spelled plainly, with a trailing slash, through ./ or ../, or has a directory name that is not valid UTF-8 (traces are byte-exact)",
             assumptions: A_SYS,
         },
         "C07" => CheckSpec {
@@ -68,7 +68,7 @@ pub fn spec(id: &str) -> Option<CheckSpec> {
             level: "exploration",
             owns: &["serializability", "content-integrity", "partial-record", "no-panic"],
             runs: (6000, 150000),
-            rule: "a run = 2-3 client processes (flavours drawn) each issuing one operation chosen to collide (same key / same content / reader of the key being written / remover of content being written) on a cold or warm cache; at every step the seeded scheduler (uniform random, PCT-style priorities, or enumerated for small cases) picks which parked client's filesystem system call executes; no faults. Accept iff some permutation of the operations applied to the reference model explains every observed result and the final cache state; I1 and 'every bucket line is a whole record' hold after every step. Non-trivial = >= 1 context switch between clients inside overlapping calls; distinct interleavings counted by hash of the (client, syscall) sequence",
+            rule: "a run = 2-3 client processes (flavours drawn) each issuing one operation chosen to collide (same key / same content / reader of the key being written / remover of content being written) on a cold or warm cache; at every step the seeded scheduler (uniform random, PCT-style priorities, or enumerated for small cases) picks which parked client's filesystem system call executes; no faults. Accept iff some permutation of the operations applied to the reference model explains every observed result and the final cache state; I1 and 'every bucket line is a whole record' hold after every step. Non-trivial = >= 1 context switch between clients inside overlapping calls; distinct interleavings counted by hash of the (client, syscall) sequence. 1 run in 16 gives the shared key a long history (bucket of tens to hundreds of KiB, length varied) and enumerates, for every point of one client's call sequence, the other client running from start to end; a quarter of the option-carrying writers append records larger than 5 / 9 / 20 / 70 KB",
             assumptions: A_SYS,
         },
         _ => return None,
